@@ -718,9 +718,13 @@ def r_count_floor(ctx: RuleCtx, col: Collector):
     c = m.public_class("AggActiveSet")
     f = c.method("__call__")
     counts = []
+    from .common import expand_names
     for n in ast.walk(f.node):
-        if isinstance(n, ast.Assign) and isinstance(n.targets[0], ast.Name) and any(
-                isinstance(x, ast.Attribute) and x.attr == "size" for x in ast.walk(n.value)) and \
+        if not (isinstance(n, ast.Assign) and isinstance(n.targets[0], ast.Name)):
+            continue
+        # a count: <number of entries> * <fraction attribute>; the number of entries may have been named beforehand
+        ve = expand_names(f.node, n.value)
+        if any((isinstance(x, ast.Attribute) and x.attr == "size") or (isinstance(x, ast.Call) and norm(x.func) == "len") for x in ast.walk(ve)) and \
                 any(isinstance(x, ast.Attribute) and x.attr.endswith("_amt") for x in ast.walk(n.value)):
             counts.append(n)
     if len(counts) < 2:
